@@ -20,13 +20,16 @@ def gen_history(rng, n):
             ratio = rng.choice([2, 4, 8, 0.5, 0.25, 3, 12, 1.5, 10])
             nfr = Fraction(ratio)
             kind = "int" if nfr.denominator == 1 else "float"
+            # numerically equal ratios of different types (12, 12.0, Decimal(12)) declared for different pairs must not share anything
+            if rng.random() < 0.35: kind = rng.choice(["float", "dec"])
             ops.append(["equals", i, e, [kind, str(nfr.numerator), str(nfr.denominator)], j, e])
         else:
             i, j = rng.randrange(nu), rng.randrange(nu)
             if dims[i] != dims[j]: continue
             e = rng.choice([1, 1, 1, 2, 3, -1])
             # numerically equal magnitudes of different types (5, 5.0, Decimal(5)) must not share an answer
-            m = rng.choice([["int", "3", "1"], ["float", "5", "2"], ["int", "0", "1"], ["dec", "7", "4"],
+            m = rng.choice([["int", "3", "1"], ["float", "5", "2"], ["int", "0", "1"], ["dec", "7", "4"], ["dec", "30", "1"], ["int", "1", "1"],
+                            ["dec", "12345678901234567890123456789012345678901", "1000"],      # more digits than the decimal context carries
                             ["int", "5", "1"], ["float", "5", "1"], ["dec", "5", "1"], ["int", "5", "1"], ["dec", "5", "1"], ["float", "5", "1"]])
             ops.append(["query", rng.choice(["in_unit", "in_unit", "rev", "eq", "lt", "add"]), m, i, e, j, e])
     return ops
@@ -96,7 +99,8 @@ Proof. vm_compute. reflexivity. Qed.
             a, b = rng.sample(range(n), 2); ops.append(eq(a, b))
         def q():
             a, b = rng.sample(range(n), 2)
-            return ["query", rng.choice(["in_unit", "in_unit", "rev", "lt"]), rng.choice([["int", "3", "1"], ["float", "5", "2"], ["int", "1", "1"]]), a, 1, b, 1]
+            return ["query", rng.choice(["in_unit", "in_unit", "rev", "lt"]), rng.choice([["int", "3", "1"], ["float", "5", "2"], ["int", "1", "1"], ["dec", "3", "2"],
+                                                                                      ["dec", "12345678901234567890123456789012345678901", "1000"]]), a, 1, b, 1]
         for _ in range(rng.randint(2, 6)): ops.append(q())
         r = rng.random()
         if r < 0.4: ops += [["unit", "time"], ["unit", "time"], ["equals", n, 1, ["float", "3", "2"], n + 1, 1]]        # unrelated declaration (flushes the caches)
